@@ -343,6 +343,14 @@ type MultiGetPlan struct {
 func NewMultiGetPlan(s Storage, f *FilterExec, keys []string) Plan {
 	// We should sort keys to ensure order by erase works correctly
 	sort.Strings(keys)
+	// Read every key once even if it is listed twice
+	ukeys := keys[:0]
+	for i, k := range keys {
+		if i == 0 || k != keys[i-1] {
+			ukeys = append(ukeys, k)
+		}
+	}
+	keys = ukeys
 	return &MultiGetPlan{
 		Storage: s,
 		Filter:  f,
